@@ -207,21 +207,182 @@ class Run(object):
         from datamatrix import DataMatrix, SeriesColumn
         self.np = np
         self.inp = inp
-        n = len(inp['rows'])
-        dm = DataMatrix(length=n)
-        dm.k = list(range(n))
         self.cols = {}
+        self.build_fail = None
+        self.detach = None      # row key (slice / index list) applied to every column handed to the function
+        n = len(inp['rows'])
+        if inp.get('src') or inp.get('table'):
+            # a source with a configuration / a history: built through the public API, must end up holding inp['rows']
+            try:
+                with warnings.catch_warnings():
+                    warnings.simplefilter('ignore')
+                    dm = self.build_table(inp)
+                    self.build_fail = self.verify_build(dm, inp)
+            except Exception as e:       # noqa -- judged (pyfail), and the case goes on with a plainly built source
+                self.build_fail = 'building the source raised %s: %s' % (type(e).__name__, e)
+            if self.build_fail is None:
+                self.dm = dm
+                return
+        self.dm = self.table_of(inp, list(range(n)), plain=True)
+
+    # ---- sources: every series column is created according to inp['src'][name] = {'dn': defaultnan, 'hist': ...},
+    # the host table according to inp['table']; whatever the history, the column ends up holding the rows of the input
+    def table_of(self, inp, order, plain=False):
+        """a DataMatrix whose row j holds row order[j] of the input (None: a filler row)"""
+        from datamatrix import DataMatrix
+        dm = DataMatrix(length=len(order))
+        dm.k = [-1 if i is None else i for i in order]
+        if plain or not self.late_cols(inp):
+            self.add_series(dm, inp, order, plain)
+        if inp.get('lock') is not None:
+            dm.l = list(inp['lock']) if plain else [0 if i is None else inp['lock'][i] for i in order]
+        if inp.get('sortkey') is not None:
+            dm.o = list(inp['sortkey']) if plain else [0 if i is None else inp['sortkey'][i] for i in order]
+        return dm
+
+    @staticmethod
+    def late_cols(inp):
+        """True: the series columns are created on the table after it went through its history, False: before"""
+        return (inp.get('table') or {}).get('cols') == 'after'
+
+    def add_series(self, dm, inp, order, plain=False):
+        np = self.np
+        src = {} if plain else (inp.get('src') or {})
         for name, rows in self.all_series(inp).items():
             depth = len(rows[0]) if rows else inp['depth']
-            dm[name] = SeriesColumn(depth=depth)
-            if depth:
-                dm[name] = np.array([[NAN if v is None else v for v in r] for r in rows], dtype=float)
-        if inp.get('lock') is not None:
-            dm.l = list(inp['lock'])
-        if inp.get('sortkey') is not None:
-            dm.o = list(inp['sortkey'])
-        self.dm = dm
-        self.detach = None      # row key (slice / index list) applied to every column handed to the function
+            arr = np.full((len(order), depth), 77.25, dtype=float)
+            for j, i in enumerate(order):
+                if i is not None and depth:
+                    arr[j] = [NAN if v is None else v for v in rows[i]]
+            self.build_col(dm, name, arr, src.get(name) or {})
+
+    def build_col(self, dm, name, arr, cfg):
+        from datamatrix import SeriesColumn
+        np = self.np
+        m, d = arr.shape
+        dn = bool(cfg.get('dn', True))
+        h = cfg.get('hist', 'plain') if d else 'plain'
+        k = max(1, int(cfg.get('k', 1)))
+        d0 = max(0, min(int(cfg.get('d0', 0)), d - 1))
+
+        def junk(c):
+            return np.arange(m * c, dtype=float).reshape(m, c) * 0.5 + 100.5
+        if h == 'plain':
+            dm[name] = SeriesColumn(depth=d, defaultnan=dn)
+            if d:
+                dm[name] = arr
+        elif h == 'grow':           # created narrower, grown with the depth setter, the new cells written afterwards
+            dm[name] = SeriesColumn(depth=d0, defaultnan=dn)
+            if d0:
+                dm[name] = arr[:, :d0]
+            dm[name].depth = d
+            dm[name][:, d0:] = arr[:, d0:]
+        elif h == 'shrink':         # created wider, cut with the depth setter: the storage is a view of the wider buffer
+            dm[name] = SeriesColumn(depth=d + k, defaultnan=dn)
+            dm[name] = np.hstack([arr, junk(k)])
+            dm[name].depth = d
+        elif h == 'shrinkgrow':     # wider, cut below the depth, grown again, then filled
+            dm[name] = SeriesColumn(depth=d + k, defaultnan=dn)
+            dm[name] = junk(d + k)
+            dm[name].depth = d0
+            dm[name].depth = d
+            dm[name] = arr
+        elif h == 'op':             # the result of an operation on another column (inherits the settings of that column)
+            dm['_raw'] = SeriesColumn(depth=d, defaultnan=dn)
+            dm['_raw'] = arr
+            dm[name] = dm['_raw'] * 1
+            del dm['_raw']
+        elif h == 'slice':          # a depth slice of a wider column
+            dm['_raw'] = SeriesColumn(depth=d + 2 * k, defaultnan=dn)
+            dm['_raw'] = np.hstack([junk(k), arr, junk(k)])
+            dm[name] = dm['_raw'][:, k:k + d]
+            del dm['_raw']
+        else:
+            raise AssertionError(cfg)
+
+    def build_table(self, inp):
+        dm = self.build_rows(inp)
+        if self.late_cols(inp):
+            self.add_series(dm, inp, [int(v) for v in dm.k])
+        return dm
+
+    def build_rows(self, inp):
+        import random
+        from datamatrix import operations as ops
+        np = self.np
+        n = len(inp['rows'])
+        tab = inp.get('table') or {'kind': 'plain'}
+        kind = tab['kind'] if n >= 2 or tab['kind'] in ('truncate', 'index', 'select') else 'plain'
+        prng = random.Random(int(tab.get('seed', 0)))
+        extra = max(1, int(tab.get('extra', 1)))
+        n0 = max(1, min(int(tab.get('n0', 1)), n - 1))
+        if kind == 'plain':
+            return self.table_of(inp, list(range(n)))
+        if kind == 'append':        # rows added after the columns were created (dm.length = n), then written
+            dm = self.table_of(inp, list(range(n0)))
+            dm.length = n
+            full = self.table_of(inp, list(range(n)), plain=True)
+            for name, col in full.columns:
+                if name not in dm:
+                    continue
+                if hasattr(col, 'depth'):
+                    if col.depth:
+                        dm[name][n0:] = np.array(col._seq[n0:])
+                else:
+                    dm[name][n0:] = list(col[n0:])
+            return dm
+        if kind == 'lshift':        # two tables stacked
+            return self.table_of(inp, list(range(n0))) << self.table_of(inp, list(range(n0, n)))
+        if kind == 'truncate':      # a longer table cut with dm.length = n
+            dm = self.table_of(inp, list(range(n)) + [None] * extra)
+            dm.length = n
+            return dm
+        if kind == 'index':         # rows picked out of a longer table in another order
+            order = list(range(n)) + [None] * extra
+            prng.shuffle(order)
+            big = self.table_of(inp, order)
+            return big[[order.index(i) for i in range(n)]]
+        if kind == 'select':        # a selection of a longer table
+            order = list(range(n))
+            for _ in range(extra):
+                order.insert(prng.randint(0, len(order)), None)
+            big = self.table_of(inp, order)
+            return big.k >= 0
+        if kind == 'sort':          # a table sorted into the row order of the input
+            order = list(range(n))
+            prng.shuffle(order)
+            big = self.table_of(inp, order)
+            return ops.sort(big, by=big.k)
+        if kind == 'shufflesort':
+            big = self.table_of(inp, list(range(n)))
+            state = random.getstate()
+            random.seed(int(tab.get('seed', 0)))
+            try:
+                sh = ops.shuffle(big)
+            finally:
+                random.setstate(state)
+            return ops.sort(sh, by=sh.k)
+        raise AssertionError(tab)
+
+    def verify_build(self, dm, inp):
+        """None when the table built with a history holds exactly the rows of the input, in their order"""
+        n = len(inp['rows'])
+        if len(dm) != n or [int(v) for v in dm.k] != list(range(n)):
+            return 'the source table built as %r does not hold the input rows in order' % (inp.get('table'),)
+        for name, rows in self.all_series(inp).items():
+            col = dm[name]
+            depth = len(rows[0]) if rows else inp['depth']
+            if col.depth != depth or col._seq.shape != (n, depth):
+                return 'source column %s built as %r has depth %r, shape %r instead of (%d, %d)' % (
+                    name, (inp.get('src') or {}).get(name), col.depth, col._seq.shape, n, depth)
+            got = [tolist(col[i]) for i in range(n)] if depth else [[] for _ in range(n)]
+            if not all(len(a) == len(b) and all(bits_equal(x, y) for x, y in zip(a, b)) for a, b in zip(got, rows)):
+                return 'source column %s built as %r / table %r holds %r instead of the rows written to it %r' % (
+                    name, (inp.get('src') or {}).get(name), inp.get('table'), got, rows)
+        for name, key in (('l', 'lock'), ('o', 'sortkey')):
+            if inp.get(key) is not None and [v for v in dm[name]] != list(inp[key]):
+                return 'source column %s does not hold %r' % (name, inp[key])
+        return None
 
     def col(self, dm, name):
         """the column handed to the function: the column of the host, or (pending finding) a detached slice of it"""
@@ -338,7 +499,14 @@ class Run(object):
         from datamatrix import FloatColumn
         fn = self.inp['fn']
         fails = []
-        work = dm[:] if fn == 'setdepth' else dm
+        work = dm
+        if fn == 'setdepth':        # the depth setter changes its column: it gets a table of its own
+            work = dm[:]
+            if dm is self.dm and (self.inp.get('src') or self.inp.get('table')) and not self.build_fail:
+                # a copy would not have the history of the source (a cut column is a view of a wider buffer): build it again
+                again = Run(self.inp)
+                if not again.build_fail:
+                    work = again.dm
         before = self.snapshot(dm)
         given = self.col(work, 's')
         inrows = [tolist(given[i]) for i in range(len(given))] if given.depth else [[] for _ in range(len(given))]
@@ -510,8 +678,15 @@ class C18:
             '/ sampling frequency, smooth with the same window length and another window type, any of the 18 functions in '
             'random order, on the host table of the case, on a copy of its rows or on other rows; the main call after the '
             'prelude must be bit-identical to the main call evaluated alone in another fresh process (and satisfies all the '
-            'checks above).  non-trivial = the output differs from the input column; distinct by (function, parameters, rows, '
-            'host, prelude)')
+            'checks above).  Sources with a configuration / a history, for each of the 18 functions: every series column '
+            'handed over (signal, baseline, timestamps, concatenated columns) created with defaultnan=False or True, plainly / '
+            'narrower and grown / wider and cut (its storage is then a view of the wider buffer) / cut and grown again with '
+            'the depth setter, as the result of an operation on or a depth slice of another column; the host table built '
+            'plainly or by appending rows after the columns existed (dm.length, <<), cutting a longer table, indexing / '
+            'selecting / sorting / shuffling another table (the series columns created before or after that); the source must hold exactly the rows written to it and all the '
+            'checks above apply (the result holds NaN where there is no data whatever the source pads with; the depth '
+            'setter pads with 0 for a defaultnan=False column, with NaN otherwise).  non-trivial = the output differs from the input column; distinct by (function, parameters, rows, '
+            'host, prelude, source configuration)')
     trusted_base = [
         'Coq 8.16.1 kernel (coqc; vm_compute for evaluating cases; no native_compute)',
         'translator /verif/translate/gen_series.py (+ py2coq.py): slice bounds, depth arithmetic and run-length tests of '
@@ -539,6 +714,10 @@ class C18:
         'host-table reordering / selection itself (dm[positions], ops.sort, dm.k == set) is the subject of C01/C02/C10; here the '
         'derived host is read back and used as the input of the second run',
         'the series column passed in is a column of its DataMatrix (not a detached slice of it)',
+        'defaultnan=False is a setting of the SOURCE column (its own new cells -- depth setter, appended rows -- are 0); '
+        'the columns returned by the series functions hold NaN where there is no data whatever that setting is (lock, '
+        'normalize_time, concatenate, endlock, ... allocate a fresh column); every source history ends with the column '
+        'holding exactly the rows of the input, which is verified before the call (a mismatch is reported as a violation)',
     ]
 
     # ---- one case ----------------------------------------------------------
@@ -594,6 +773,8 @@ class C18:
         except Exception as e:       # the host operation itself failed: not this property's business
             o1 = None
         fails = list(o0['fails'])
+        if run.build_fail:
+            fails.append('source: ' + run.build_fail)
         if o1:
             fails += ['derived host: ' + f for f in o1['fails']]
         malformed = bool(inp.get('malformed'))
@@ -641,6 +822,11 @@ class C18:
                 'host:' + (inp.get('host') or {'kind': 'id'})['kind']] + (['malformed'] if malformed else [])
         for r in inp['rows']:
             tags.append('nan:' + nan_class(r))
+        for name, cfg in sorted((inp.get('src') or {}).items()):
+            tags += ['src:' + cfg.get('hist', 'plain'), 'src-defaultnan:%s' % cfg.get('dn', True),
+                     'src:%s:%s%s' % (fn, cfg.get('hist', 'plain'), '' if cfg.get('dn', True) else ':defaultnan=False')]
+        if inp.get('table'):
+            tags.append('table:' + inp['table']['kind'])
         for e in inp.get('prelude') or []:
             tags += ['history', 'before:' + e['fn'], 'before-on:' + ('host' if e.get('on') == 'same' else 'same-rows' if e.get(
                 'rows') == inp['rows'] else 'other-rows')]
@@ -650,7 +836,7 @@ class C18:
             'model': '(' + ' && '.join(model_parts) + ')' if model_parts else 'true',
             'nontrivial': nontrivial,
             'sig': json.dumps([fn, inp.get('params'), inp['rows'], inp.get('more'), inp.get('lock'), inp.get('host'),
-                               inp.get('prelude')], sort_keys=True),
+                               inp.get('prelude'), inp.get('src'), inp.get('table')], sort_keys=True),
             'tags': sorted(set(tags)),
         }
 
@@ -701,6 +887,9 @@ class C18:
             a = '%s %s %s' % (S, timeslit(tss), obs)
             return 'o_normtime ' + a, 'm_normtime %s %s' % (L.nat(d), a), 'exact'
         if fn == 'setdepth':
+            if not source_pads_nan(inp):       # created with defaultnan=False: new cells are 0
+                return ('o_setdepth_pad (z 0) %s %s %s' % (L.nat(p['depth']), S, obs),
+                        'm_setdepth_pad (z 0) %s %s %s %s' % (L.nat(d), L.z(p['depth']), S, obs), 'exact')
             return ('o_setdepth %s %s %s' % (L.nat(p['depth']), S, obs),
                     'm_setdepth %s %s %s %s' % (L.nat(d), L.z(p['depth']), S, obs), 'exact')
         exact = inp.get('exact', False)
@@ -813,6 +1002,7 @@ class C18:
             one['lock'] = None if inp.get('lock') is None else [inp['lock'][i]]
             one['host'] = None
             one['sortkey'] = None
+            one['table'] = None
             run = Run(one)
             o = run.observe(run.dm)
             if o['rows'] is None or len(o['rows']) != 1 or len(o['rows'][0]) != len(o0['rows'][i]) or not all(
@@ -966,6 +1156,32 @@ class C18:
                 inp['sortkey'] = key
         return inp
 
+    HISTS = ['plain', 'plain', 'grow', 'grow', 'shrink', 'shrink', 'shrinkgrow', 'op', 'slice']
+    TABLES = ['append', 'lshift', 'truncate', 'index', 'select', 'sort', 'shufflesort']
+
+    def add_source(self, rng, inp):
+        """gives the series columns of a case a configuration and a history: created with defaultnan=False, at another
+        depth and grown / cut / cut-and-grown with the depth setter (a cut column is a view of the wider buffer), made by
+        an operation on / as a depth slice of another column; and the host table a history: rows appended after the
+        columns were created (dm.length, <<), a longer table cut, a selection / sorted / shuffled copy of another table"""
+        d = inp['depth']
+        names = sorted(Run.all_series(inp))
+        src = {}
+        s_zero = rng.random() < 0.6       # column s created with defaultnan=False
+        for name in names:
+            dcol = len(Run.all_series(inp)[name][0])
+            cfg = {'dn': not s_zero if name == 's' else rng.random() < 0.5, 'hist': rng.choice(self.HISTS),
+                   'k': rng.randint(1, 3), 'd0': rng.randint(0, max(0, dcol - 1))}
+            src[name] = cfg
+        if all(c['dn'] and c['hist'] == 'plain' for c in src.values()):
+            src['s']['hist'] = rng.choice(['grow', 'shrink', 'shrinkgrow'])
+        inp['src'] = src
+        if rng.random() < 0.45:
+            inp['table'] = {'kind': rng.choice(self.TABLES), 'n0': rng.randint(1, max(1, len(inp['rows']) - 1)),
+                            'extra': rng.randint(1, 3), 'seed': rng.randint(0, 999),
+                            'cols': rng.choice(['before', 'before', 'after'])}
+        return inp
+
     @staticmethod
     def gen_fs(rng, p):
         """sampling frequency: omitted, None (the SciPy default of 2 half-cycles per sample) or a value; the cut-offs are
@@ -993,6 +1209,8 @@ class C18:
         parameters or on other data, the other Butterworth filters with the same cut-off / order / sampling frequency,
         any of the 18 functions in random order -- on the host table of the case, on a copy of its rows or on other rows"""
         inp = self.gen_case(rng, fn, nmax, dmax, tol=(fn in ABSTRACT or rng.random() < 0.3))
+        if rng.random() < 0.3:
+            self.add_source(rng, inp)
         n, d = len(inp['rows']), inp['depth']
         p = inp['params']
         pre = []
@@ -1105,6 +1323,11 @@ class C18:
                 inps.append(self.gen_case(rng, fn, nmax, dmax, tol=True))
         for _ in range(reps):
             inps.append(self.gen_malformed(rng, nmax, dmax))
+        # sources with a configuration / a history, for every function
+        for fn in ALL_FNS:
+            for i in range(reps // 4):
+                tol = fn in ABSTRACT or (fn in ARITH and i % 3 == 2)
+                inps.append(self.add_source(rng, self.gen_case(rng, fn, nmax, dmax, tol=tol)))
         # call histories: every function after a prelude of sibling calls
         for fn in ALL_FNS:
             for _ in range((reps // 8) * (2 if fn in FILTERS else 1)):
@@ -1129,6 +1352,23 @@ class C18:
             c['host'] = None
             c['sortkey'] = None
             yield c
+        if inp.get('table'):
+            c = clone()
+            c['table'] = None
+            yield c
+        for name, cfg in sorted((inp.get('src') or {}).items()):
+            if cfg.get('hist', 'plain') != 'plain':
+                c = clone()
+                c['src'][name] = {'dn': cfg.get('dn', True), 'hist': 'plain'}
+                yield c
+            if not cfg.get('dn', True):
+                c = clone()
+                c['src'][name]['dn'] = True
+                yield c
+            if cfg.get('hist', 'plain') == 'plain' and cfg.get('dn', True):
+                c = clone()
+                del c['src'][name]
+                yield c
         for i in range(n):
             if n <= 1:
                 break
@@ -1162,6 +1402,13 @@ class C18:
         inp = case['input']
         return 'series %s params=%s rows=%s' % (inp['fn'], json.dumps(inp.get('params'), sort_keys=True),
                                                 json.dumps(inp['rows']))
+
+
+def source_pads_nan(inp):
+    """what the depth setter writes into new cells of column s: NaN, or 0 for a column created with defaultnan=False
+    (a depth slice of such a column is a new column with the default setting)"""
+    cfg = (inp.get('src') or {}).get('s') or {}
+    return bool(cfg.get('dn', True)) or cfg.get('hist') == 'slice'
 
 
 def nan_class(r):
@@ -1221,6 +1468,31 @@ BOUNDARY = [
     {'fn': 'z', 'depth': 4, 'rows': [[1., 3., 1., 3.], [0., N_, 4., 8.]], 'params': {},
      'prelude': [{'fn': 'z', 'depth': 4, 'rows': [[10., 30., 10., 30.], [0., 1., 2., 3.]], 'params': {}},
                  {'fn': 'downsample', 'params': {'by': 2}, 'on': 'same'}, {'fn': 'interpolate', 'params': {}, 'on': 'same'}]},
+    # sources created with defaultnan=False (new cells are 0) and / or with a depth history: the cells of the result that
+    # hold no data are NaN whatever the source column pads with; the depth setter itself pads with what the column says
+    {'fn': 'lock', 'depth': 4, 'rows': [[1., 2., 3., 4.], [5., N_, 7., 8.], [9., 10., 11., N_]], 'lock': [3, 0, 1],
+     'params': {'as': 'col'}, 'host': {'kind': 'index', 'ps': [2, 0, 1]}, 'src': {'s': {'dn': False, 'hist': 'plain'}}},
+    {'fn': 'lock', 'depth': 3, 'rows': [[1., 2., 3.], [N_, 5., 6.], [7., 8., N_]], 'lock': [0, 2, 1],
+     'params': {'as': 'list'}, 'host': {'kind': 'index', 'ps': [1, 2]},
+     'src': {'s': {'dn': False, 'hist': 'shrink', 'k': 2}}, 'table': {'kind': 'append', 'n0': 1}},
+    {'fn': 'concatenate', 'depth': 3, 'rows': [[1., 2., 3.], [N_, 5., 6.]], 'more': [[[7., N_], [9., 10.]]],
+     'host': {'kind': 'index', 'ps': [1, 0]},
+     'src': {'s': {'dn': False, 'hist': 'grow', 'd0': 1}, 's2': {'dn': False, 'hist': 'shrink', 'k': 1}}},
+    {'fn': 'endlock', 'depth': 4, 'rows': [[1., 2., N_, N_], [N_, 1., 2., 3.], [N_, N_, N_, N_]],
+     'host': {'kind': 'index', 'ps': [2, 0, 1]}, 'src': {'s': {'dn': False, 'hist': 'shrink', 'k': 3}}},
+    {'fn': 'normalize_time', 'depth': 3, 'rows': [[1., 2., 3.], [4., 5., 6.]], 'more': [[[0., 2., 5.], [1., 3., N_]]],
+     'host': {'kind': 'index', 'ps': [1]}, 'src': {'s': {'dn': False, 'hist': 'op'}, 's2': {'dn': False, 'hist': 'grow', 'd0': 2}}},
+    {'fn': 'setdepth', 'depth': 3, 'rows': [[1., 2., 3.], [N_, 5., N_]], 'params': {'depth': 5},
+     'host': {'kind': 'index', 'ps': [1, 0]}, 'src': {'s': {'dn': False, 'hist': 'plain'}}},
+    {'fn': 'setdepth', 'depth': 3, 'rows': [[1., 2., 3.], [N_, 5., N_]], 'params': {'depth': 5},
+     'host': {'kind': 'index', 'ps': [1, 0]}, 'src': {'s': {'dn': True, 'hist': 'shrink', 'k': 2}}},
+    {'fn': 'setdepth', 'depth': 3, 'rows': [[1., 2., 3.], [N_, 5., N_]], 'params': {'depth': 4},
+     'src': {'s': {'dn': False, 'hist': 'shrinkgrow', 'k': 2, 'd0': 1}}, 'table': {'kind': 'select', 'extra': 2, 'seed': 5}},
+    {'fn': 'setdepth', 'depth': 2, 'rows': [[1., 2.], [N_, 5.], [3., N_]], 'params': {'depth': 3},
+     'src': {'s': {'dn': True, 'hist': 'shrink', 'k': 1}}, 'table': {'kind': 'sort', 'seed': 3, 'cols': 'after'}},
+    {'fn': 'threshold', 'depth': 4, 'rows': [[0., 1., 1., 0.], [1., 1., 1., 1.]],
+     'params': {'pred': 'gt', 'c': 0.0, 'min_length': 2}, 'src': {'s': {'dn': False, 'hist': 'shrink', 'k': 1}},
+     'table': {'kind': 'lshift', 'n0': 1}},
 ]
 for _b in BOUNDARY:
     _b.setdefault('params', {})
